@@ -8,6 +8,7 @@ C11.enforce    enforce_bounds early-returns on satisfies_bounds(<the state it le
 """
 from ..core import RuleResult, Violation, user_call, SS
 from ..engine import walk, fmt_terms, strip_clone, T
+from .. import planner as P
 from .c12 import space_adts, cmp_facts, relation_for, const_float, same
 
 META = {
@@ -109,7 +110,9 @@ def self_field(ts, name):
 
 
 def bound_reads(ts):
-    """yield (node, index terms or None, which '0'/'1') for every read of self.bounds(.k | [i].k) inside ts"""
+    """yield (node, index terms or None, which '0'/'1') for every read of self.bounds(.k | [i].k) inside ts;
+    for the zip idiom `for (v, &(lo, hi)) in values.iter_mut().zip(self.bounds.iter())` the index is the pseudo term
+    frozenset({('zip', element terms, component of the bounds)})"""
     for n in walk(ts):
         if n[0] == 'field' and n[2] in ('0', '1'):
             for m in n[1]:
@@ -117,6 +120,10 @@ def bound_reads(ts):
                     yield n, m[2], n[2]
                 elif m[0] == 'field' and m[2] == 'bounds' and all(q[0] == 'param' and q[1] == 1 for q in m[1]):
                     yield n, None, n[2]
+                elif m[0] == 'field' and m[2] in ('0', '1') and len(n[1]) == 1:
+                    zc = P.zip_components(m[1])
+                    if zc is not None and self_field(zc[int(m[2])], 'bounds'):
+                        yield n, T(('zip', m[1], m[2])), n[2]
 
 
 def is_induction(ts):
@@ -125,6 +132,8 @@ def is_induction(ts):
         return False
     for n in ts:
         m = n
+        if m[0] == 'zip':
+            continue        # position in a zipped iteration
         if m[0] == 'field' and m[2] in ('0',) and len(m[1]) == 1:
             m = next(iter(m[1]))
         if m[0] == 'unwrap' and all(q[0] == 'call' and q[1] == 'std::iter::Iterator::next' for q in m[1]):
@@ -411,6 +420,15 @@ def _paired(v, idx):
         ok = False
         # enumerate: idx = unwrap(next(E)).0 , v = unwrap(next(E)).1
         for i in idx:
+            if i[0] == 'zip':
+                # zip: the value is the other component of the same zipped element, and that side iterates `values`
+                other = '1' if i[2] == '0' else '0'
+                zc = P.zip_components(i[1])
+                for m in walk(T(n)):
+                    if m[0] == 'field' and m[2] == other and m[1] == i[1] and zc is not None and \
+                            all(q[0] == 'field' and q[2] == 'values' for q in zc[int(other)]):
+                        ok = True
+                continue
             if i[0] == 'field' and i[2] == '0':
                 for m in walk(T(n)):
                     if m[0] == 'field' and m[2] == '1' and m[1] == i[1]:
@@ -426,24 +444,40 @@ def _paired(v, idx):
 
 def _cmp_roles(ctx, sb, r_same, need_index):
     """every comparison that mentions a bound: 'value > bound' uses the upper bound, 'value < bound' the lower,
-    bounds index == values index, and the violating edge leads to returning false"""
+    bounds index == values index, and the violating outcome makes the function answer false.  Which outcome rejects is
+    decided by a symbolic walk over the boolean control flow (boolpath): works for early returns, `a || b`, `!(..)`
+    and materialised booleans alike."""
+    from ..boolpath import explore, Overflow
     fn = ctx.fn(sb)
-    n_cmp = 0
-    for blk in range(fn.nb):
-        if fn.blocks[blk]['cleanup']:
-            continue
-        si = fn.switch_info(blk)
-        if si is None:
-            continue
-        terms, tmap, other = si
-        if len(terms) != 1:
-            continue
-        n = next(iter(terms))
+
+    def is_atom(n):
         if n[0] != 'binop' or n[1] not in ('Lt', 'Le', 'Gt', 'Ge'):
-            continue
+            return False
+        return len(list(bound_reads(n[2]))) + len(list(bound_reads(n[3]))) == 1
+    try:
+        leaves = explore(fn, 0, is_atom)
+    except Overflow:
+        r_same.violations.append(Violation('C11', 'C11.same', sb.path, 'no-cmp', 'bounds check too branchy to analyse (unrecognised shape)', loc=sb.loc(0)))
+        return
+    atoms = []
+    for val, _out in leaves:
+        for a in val:
+            if a not in atoms:
+                atoms.append(a)
+
+    def where(a):
+        for bi, blk in enumerate(fn.blocks):
+            if blk['cleanup']:
+                continue
+            for si, st in enumerate(blk['stmts']):
+                if st['k'] == 'assign' and st['rv']['k'] == 'binop' and st['rv']['op'] == a[1] and fn.rvalue_terms(st['rv'], (bi, si)) == T(a):
+                    return bi
+        return 0
+    atoms.sort(key=where)
+    n_cmp = 0
+    for n in atoms:
+        blk = where(n)
         la, lb = list(bound_reads(n[2])), list(bound_reads(n[3]))
-        if len(la) + len(lb) != 1:
-            continue
         n_cmp += 1
         bound_on_right = bool(lb)
         (_bn, idx, which) = (lb or la)[0]
@@ -452,12 +486,12 @@ def _cmp_roles(ctx, sb, r_same, need_index):
         # normalise to "value OP bound"
         if not bound_on_right:
             op = {'Lt': 'Gt', 'Le': 'Ge', 'Gt': 'Lt', 'Ge': 'Le'}[op]
-        # the edge on which the function goes on to answer false: determine which edge reaches only `_0 = false`
-        if set(tmap.keys()) != {'0'}:
-            continue
-        f_t, t_t = tmap['0'], other
-        true_means_outside = _only_false(fn, t_t) and not _only_false(fn, f_t)
-        false_means_outside = _only_false(fn, f_t) and not _only_false(fn, t_t)
+        t_leaves = [o for (v, o) in leaves if v.get(n) is True]
+        f_leaves = [o for (v, o) in leaves if v.get(n) is False]
+        t_false = bool(t_leaves) and all(o == ('ret', False) for o in t_leaves)
+        f_false = bool(f_leaves) and all(o == ('ret', False) for o in f_leaves)
+        true_means_outside = t_false and not f_false
+        false_means_outside = f_false and not t_false
         ok = False
         why = ''
         if true_means_outside:
@@ -470,7 +504,7 @@ def _cmp_roles(ctx, sb, r_same, need_index):
             ok = (op in ('Gt', 'Ge') and which == '0') or (op in ('Lt', 'Le') and which == '1')
             why = 'containment test compares against the wrong end'
         else:
-            why = 'cannot tell which edge of the comparison rejects the state (unrecognised shape)'
+            why = 'cannot tell which outcome of the comparison rejects the state (unrecognised shape)'
         if ok and need_index:
             ok = idx is not None and is_induction(idx) and _paired(valside, idx)
             why = 'bounds index and values index differ or are not the loop induction variable'
